@@ -13,6 +13,10 @@ CONSTANTS
   MaxSteps = 2
   SizeClasses <- AllSizes
   UnitLens <- UnitLensFull
+  Setups <- SetupsDef
+  AuthSetups <- AuthSetupsDef
+  Forms <- FormsDef
+  AltForm <- AltFormDef
   Variant = "ok"
 INVARIANT HashInputOk
 INVARIANT HashedLength
